@@ -475,7 +475,7 @@ func writeLockFacts(root, gen string, status map[string]string, facts map[string
 		status["Locks.sites"] = "ERROR"
 	}
 	b.WriteString("]\n\n")
-	b.WriteString(leanLockOrder(root, status, facts))
+	b.WriteString(leanLockOrder(root, filepath.Join(filepath.Dir(gen), "..", "..", "..", ".build"), status, facts))
 	b.WriteString("\nend PC.Gen.Locks\n")
 	target := filepath.Join(gen, "Locks.lean")
 	if cur, err := os.ReadFile(target); err != nil || string(cur) != b.String() {
